@@ -341,12 +341,16 @@ fn features<V: VringT<dmn::Mem> + Clone + Send + Sync + 'static>(cfg: &Cfg, rng:
 
 /// A newly attached backend-request channel inherits reply-ack / shared-object / shmem.
 fn backend_channel<V: VringT<dmn::Mem> + Clone + Send + Sync + 'static>(cfg: &Cfg) {
-    for bits in 0..8u64 {
+    for bits in 0..24u64 {
+        // when the channel is attached: right after the negotiation, after a RESET_DEVICE, or after
+        // a later SET_FEATURES without VHOST_USER_F_PROTOCOL_FEATURES (protocol features persist)
+        let moment = bits / 8;
+        let bits = bits % 8;
         let (ra, so, sh) = (bits & 1 != 0, bits & 2 != 0, bits & 4 != 0);
         let bc = BCfg { num_queues: 1, masks: vec![1], ..BCfg::default() };
         let mut s: Sess<V> = Sess::new(bc);
         let mut fe = s.connect(1);
-        let mut pf = spec::PF_BACKEND_REQ | spec::PF_MQ;
+        let mut pf = spec::PF_BACKEND_REQ | spec::PF_MQ | spec::PF_RESET_DEVICE;
         if ra {
             pf |= spec::PF_REPLY_ACK;
         }
@@ -360,10 +364,23 @@ fn backend_channel<V: VringT<dmn::Mem> + Clone + Send + Sync + 'static>(cfg: &Cf
             report::inconclusive("negotiate");
             return;
         }
-        let (ours, theirs) = sys::pair();
-        if fe.set_backend_request_fd(&theirs).is_err() {
-            report::inconclusive("set_backend_request_fd");
+        let pre = match moment {
+            1 => fe.reset_device().map_err(|e| format!("reset_device: {e:?}")),
+            2 => fe.set_features(3).map_err(|e| format!("set_features: {e:?}")),
+            _ => Ok(()),
+        };
+        if let Err(e) = pre {
+            report::inconclusive(&format!("channel moment {moment}: {e}"));
             return;
+        }
+        let (ours, theirs) = sys::pair();
+        if let Err(e) = fe.set_backend_request_fd(&theirs) {
+            if moment == 0 {
+                report::inconclusive("set_backend_request_fd");
+                return;
+            }
+            report::observe(&format!("channel-attach-refused:moment{moment}"), J::S(format!("{e:?}")));
+            continue;
         }
         let _ = fe.get_features();
         let Some(b) = s.be.st.lock().unwrap().backend_req.take() else {
@@ -371,7 +388,7 @@ fn backend_channel<V: VringT<dmn::Mem> + Clone + Send + Sync + 'static>(cfg: &Cf
             return;
         };
         report::eval(1);
-        report::distinct_str(&format!("channel:{bits}"));
+        report::distinct_str(&format!("channel:{moment}:{bits}"));
         let uuid = VhostUserSharedMsg { uuid: uuid_from(7) };
         // an ack is queued up front so that a call that does wait cannot block the check
         if so {
@@ -390,7 +407,7 @@ fn backend_channel<V: VringT<dmn::Mem> + Clone + Send + Sync + 'static>(cfg: &Cf
         let nr1 = m1.as_ref().map(|m| m.hdr().flags & spec::F_NEED_REPLY != 0);
         let ok = r1.is_ok() == so && sent1 == so && r2.is_ok() == sh && sent2 == sh && (!so || nr1 == Some(ra)) && (!sh || m2.as_ref().map(|m| m.hdr().flags & spec::F_NEED_REPLY != 0) == Some(ra));
         if !ok {
-            viol(cfg, "set_backend_req_fd:negotiated-settings-not-inherited", jo! {"negotiated" => jo!{"reply_ack" => ra, "shared_object" => so, "shmem" => sh},
+            viol(cfg, "set_backend_req_fd:negotiated-settings-not-inherited", jo! {"attached" => ["after-negotiation", "after-reset-device", "after-set-features-without-pf"][moment as usize], "negotiated" => jo!{"reply_ack" => ra, "shared_object" => so, "shmem" => sh},
                 "shared_object_add" => format!("{r1:?}"), "shared_object_request_on_wire" => sent1, "need_reply_flag" => nr1, "shmem_unmap" => format!("{r2:?}"), "shmem_request_on_wire" => sent2}, "channel");
             return;
         }
